@@ -1117,6 +1117,28 @@ def layout_invariance_monitor(ctx, S, step, sd, k, res):
                       f"{getattr(S, 'layouts', {})}): {describe_diff(r_plain, res)}", {"step": step["name"], "par": step["par"]})
 
 
+def scramble(obj, depth=0):
+    """what a caller may do with a result it was given: overwrite it in place (arrays zeroed, table columns zeroed)"""
+    import pandas as pd
+    if depth > 4:
+        return
+    try:
+        if isinstance(obj, np.ndarray):
+            if obj.flags.writeable and obj.dtype.kind in "fciub":
+                obj[...] = 0
+        elif isinstance(obj, pd.DataFrame):
+            for c in list(obj.columns):
+                obj[c] = 0.0
+        elif isinstance(obj, (list, tuple)):
+            for v in obj:
+                scramble(v, depth + 1)
+        elif isinstance(obj, dict):
+            for v in obj.values():
+                scramble(v, depth + 1)
+    except Exception:  # noqa: BLE001  read-only results are fine
+        pass
+
+
 def update_in_place(S, mode):
     """a legitimate in-place update of the caller's own objects; returns [(array, saved copy)] for undoing it.  Timesteps, particle
     numbers, shapes and object identities stay what they were -- only values change:
@@ -1266,7 +1288,9 @@ def program(ctx, rng, wd, R, pno, fresh_replay=False):
                 inst = step["make"]()
                 o1, o2 = os.path.join(sd, f"o{k}a"), os.path.join(sd, f"o{k}b")
                 os.makedirs(o1), os.makedirs(o2)
-                r1 = canon(step["call"](inst, o1)[0])
+                raw1 = step["call"](inst, o1)[0]
+                r1 = clone(canon(raw1))
+                scramble(raw1)          # the caller normalises / overwrites the table it was given; the object must not notice
                 r2 = canon(step["call"](inst, o2)[0])
                 ctx.check("instance_reuse", same(r1, res) and same(r2, res), f"{step['name']}/instance_reuse",
                           lambda: f"{step['name']} {step['par']}: calling the method twice on one instance differs from a fresh instance: "
